@@ -120,6 +120,9 @@ def poll_rules(ctx, which):
                "(otherwise a later completion cannot wake the broadcasting task: lost wake-up)", regs + [r])
         # the registration precedes take_scheduled in the same iteration
         ts = list(b.calls(r"TaskSet::take_scheduled$"))
+        ctx.ob("%s|woken-on-each-subfuture-progress" % tag, len(ts) == 1 and all(t.args()[1].get("v") == 1 for t in ts),
+               "the broadcasting task asks to be woken as soon as one sub-future is scheduled (sub-sends of one broadcast can depend on each "
+               "other through a shared full mailbox, so waiting for all of them can stall)", ts)
         ctx.ob("%s|register-before-take" % tag, bool(ts) and all(b.can_reach(g, t) for g in regs for t in ts) and all(not b.dominates(t, g) for g in regs for t in ts),
                "the waker is registered before the scheduled set is inspected (no window in which a wake-up is missed)", regs + ts)
     # ---- index agreement: the output slot / future / waker of one iteration use the same index
@@ -153,6 +156,19 @@ def output_slot_rules(ctx):
     rep = polls[1]
     ok = any(c.kind == "call" and c.data[0] == "std::option::Option::is_some" and c.data[1] is False for c in b.conditions(rep))
     ctx.ob("output|completed-not-repolled", ok, "a sub-future whose output slot is already filled is not polled again", [rep])
+    # ... which is only sound if the slots are emptied whenever a new broadcast future is created
+    nb = P.body("ports::output::broadcaster::BroadcastFuture::new")
+    if nb is None:
+        return ctx.missing("ports::output::broadcaster::BroadcastFuture::new")
+    tk = list(nb.calls("^std::option::Option::take$"))
+    tks = list(nb.calls("^std::iter::Iterator::take$"))
+    ok = len(tk) == 1 and len(tks) == 1 and nb.in_loop(tk[0]) and not [c for c in nb.conditions(tk[0]) if c.kind != "variant"]
+    ctx.ob("output|slots-cleared-before-broadcast", ok,
+           "the reply slots about to be used are emptied when the broadcast future is created (a stale Some would make the re-poll loop skip "
+           "a pending sub-future for ever)", tk + tks)
+    cnt = [s for s in nb.calls("^std::vec::Vec::len$")]
+    ok = bool(cnt) and any(nb.origins(t.args()[1], t) == frozenset([("call", c.b, c.callee)]) for t in tks for c in cnt)
+    ctx.ob("output|cleared-count-is-number-of-futures", ok, "exactly as many slots are emptied as there are sub-futures", cnt)
 
 
 def fanout_rules(ctx, module):
